@@ -1256,3 +1256,58 @@ func (c *Ctx) ruleCmpUnsignedDiff(dir string, names ...string) {
 		c.unresolved("comparators " + strings.Join(names, ",") + " in " + dir)
 	}
 }
+
+// R-BOUNDS/pubkey (C37): the public-key text of a key file is sliced only after its length was checked.
+func (c *Ctx) rulePubKeySlice() {
+	dir := "lib/keystore"
+	c.doc("R-BOUNDS/pubkey", dir+": a constant-bound re-slice of the PublicKey string read from a key file (PublicKey[2:]) is dominated by a length test of that string: a key file without the field must be refused, not crash the import")
+	sp := c.ssaPkg(dir)
+	if sp == nil {
+		return
+	}
+	n := 0
+	for _, f := range allFuncs(c, sp) {
+		ord := 0
+		eachInstr(f, func(b *ssa.BasicBlock, _ int, in ssa.Instruction) {
+			sl, ok := in.(*ssa.Slice)
+			if !ok {
+				return
+			}
+			_, fv, ok := fieldLoad(sl.X)
+			if !ok || fv == nil || fv.Name() != "PublicKey" {
+				return
+			}
+			lo, isC := int64(0), false
+			if sl.Low != nil {
+				lo, isC = constInt(sl.Low)
+			}
+			if !isC || lo == 0 {
+				return
+			}
+			n++
+			ord++
+			okLen := guardedBy(b, func(cond ssa.Value, truth bool) bool {
+				bo, ok := cond.(*ssa.BinOp)
+				if !ok {
+					return false
+				}
+				lc, ok := bo.X.(*ssa.Call)
+				if !ok || calleeName(&lc.Call) != "builtin.len" || !sameFieldLoad(lc.Call.Args[0], sl.X) {
+					return false
+				}
+				k, isK := constInt(bo.Y)
+				if !isK {
+					return false
+				}
+				switch {
+				case bo.Op == token.LEQ && !truth && k >= lo-1, bo.Op == token.LSS && !truth && k >= lo,
+					bo.Op == token.GTR && truth && k >= lo-1, bo.Op == token.GEQ && truth && k >= lo:
+					return true
+				}
+				return false
+			})
+			c.ob("R-BOUNDS/pubkey", fmt.Sprintf("%s:PublicKey[%d:]#%d", relName(f.String()), lo, ord), sl.Pos(), okLen, "the public-key text is sliced without a length check")
+		})
+	}
+	c.ob("R-BOUNDS/pubkey", "PublicKey-slices-examined", token.NoPos, true, fmt.Sprintf("%d constant-bound slices of PublicKey examined", n))
+}
